@@ -6,8 +6,13 @@ from __future__ import annotations
 
 import hashlib
 import json
+import re
 import random
 import sys
+
+
+class UnknownKind(Exception):
+    """A case kind the driver does not know: a mistake in the machinery (never an observation to compare)."""
 
 
 def run_case(kind, case):
@@ -65,6 +70,8 @@ def run_case(kind, case):
         return [ret["exc"] + ": " + "".join(chr(c) for c in ret["msg"])]
     except SigmaError as e:
         return ["SigmaError " + type(e).__name__ + ": " + str(e)]
+    except UnknownKind:
+        raise
     except Exception as e:  # noqa: BLE001
         return ["EXC " + type(e).__name__ + ": " + str(e)]
 
@@ -94,7 +101,7 @@ def run_c20x(case):
         return list(cls().convert(SigmaCollection.from_dicts([doc])))
     names = [FIELD_NAMES[n - 1] for n in case["names"]]
     if k in ("badcond", "filtermissing", "convnum", "validatorset", "unrefcond", "appliedids", "converr", "reflagerr", "dangling3", "attrerr",
-             "unknownvals", "tracking", "underq"):
+             "unknownvals", "tracking", "underq", "plainerr", "tmplerr"):
         return run_errors(k, case, names)
     if k == "strict":
         pipe = ProcessingPipeline.from_dict({"name": "p", "priority": 1, "transformations": [
@@ -123,7 +130,7 @@ def run_c20x(case):
         rule = SigmaRule.from_dict(doc)
         issues = [type(i).__name__ + ":" + str(getattr(i, "fieldname", "")) for i in CustomAttributesValidator().validate(rule)]
         return list(TextQueryTestBackend(pipe).convert_rule(rule)) + [str(list(rule.to_dict().keys()))] + issues
-    raise ValueError(k)
+    raise UnknownKind(k)
 
 
 def run_errors(k, case, names):
@@ -236,11 +243,33 @@ def run_errors(k, case, names):
         t.add_mapping("x", "y")
         t.add_mapping("y", "z")
         return [n + "->" + ",".join(sorted(t[n])) for n in sorted(idn)]
+    if k in ("plainerr", "tmplerr"):  # messages that print a rule / a detection item the named items were applied to
+        pipe = {"name": "p", "priority": 1, "transformations": [
+            {"id": idn[0], "type": "field_name_suffix", "suffix": "_a"}, {"id": idn[1], "type": "field_name_suffix", "suffix": "_b"},
+            {"id": idn[2], "type": "replace_string", "regex": "abc", "replacement": "abd"}]}
+        if k == "tmplerr":
+            pipe["postprocessing"] = [{"type": "template", "template": "{{ query }} /* {{ rule.to_dict() }} */"}]
+            b = TextQueryTestBackend(ProcessingPipeline.from_dict(pipe), collect_errors=True)
+            out = list(b.convert(SigmaCollection.from_dicts([rule])))
+            return out + [text(e) for _, e in b.errors]
+        from sigma.rule import SigmaRule
+
+        r = SigmaRule.from_dict(dict(rule, detection={"sel": {"f|contains": "abc"}, "condition": "sel"}))
+        ProcessingPipeline.from_dict(pipe).apply(r)
+        try:
+            r.to_dict()
+            return ["no error"]
+        except SigmaError as e:
+            return [text(e)]
     if k == "underq":
         pipe = ProcessingPipeline.from_dict({"name": "p", "priority": 1, "transformations": [{"type": "add_condition", "conditions": {"idx": "main"}}]})
         det = {"_q1": {"f": "foo"}, "_q2": {"g": "bar"}, "condition": "1 of _*q*"}
         return list(TextQueryTestBackend(pipe).convert(SigmaCollection.from_dicts([dict(rule, detection=det)])))
-    raise ValueError(k)
+    raise UnknownKind(k)
+
+
+# a generated name: the fixed stem and the drawn part (whatever alphabet it is drawn from); "rule_cond_op" is none
+GENERATED = re.compile(r"_(?:cond|filt)_[A-Za-z0-9]{6,}")
 
 
 def main():
@@ -253,7 +282,7 @@ def main():
         lines = run_case(kind, case)
         text = "\n".join(lines)
         res.append({"kind": kind, "id": case.get("id", 0), "sha": hashlib.sha256(text.encode("utf-8", "surrogatepass")).hexdigest()[:16],
-                    "internal": ("_cond_" in text) or ("_filt_" in text), "text": text[:400]})
+                    "internal": GENERATED.search(text) is not None, "text": text[:400]})
     with open(out, "w") as f:
         json.dump(res, f)
 
